@@ -98,7 +98,33 @@ ca = strip_comments(rd("jcapimin.c"))
 body = func_body(ca, r"GLOBAL\(void\)\s*\njpeg_suppress_tables\(j_compress_ptr cinfo, boolean suppress\)", "jcapimin.c jpeg_suppress_tables")
 suppress_all = bool(re.search(r"for \(i = 0; i < NUM_QUANT_TBLS; i\+\+\) \{\s*if \(\(qtbl = cinfo->quant_tbl_ptrs\[i\]\) != NULL\)\s*qtbl->sent_table = suppress;\s*\}", body))
 
-print("(* GENERATED by tools/gen_C07Ctl.py from src/jccoefct.c, src/jcparam.c, src/jcmarker.c, src/jcapistd.c, src/jcapimin.c -- do not edit *)")
+# ---- jdcoefct.c decompress_data(): the "force some input" loop ----------------------------------------
+dcf = strip_comments(rd("jdcoefct.c"))
+body = func_body(dcf, r"METHODDEF\(int\)\s*\ndecompress_data\(j_decompress_ptr cinfo, _JSAMPIMAGE output_buf\)", "jdcoefct.c decompress_data")
+wait_loop = re.search(r"while \(cinfo->input_scan_number < cinfo->output_scan_number \|\|\s*"
+                      r"\(cinfo->input_scan_number == cinfo->output_scan_number &&\s*"
+                      r"cinfo->input_iMCU_row <= cinfo->output_iMCU_row\)\) \{\s*"
+                      r"if \(\(\*cinfo->inputctl->consume_input\) \(cinfo\) == JPEG_SUSPENDED\)\s*return JPEG_SUSPENDED;\s*\}", body)
+first_access = body.find("access_virt_barray")
+if first_access < 0:
+    sys.exit("gen_C07Ctl: jdcoefct.c decompress_data no longer reads the coefficient arrays through access_virt_barray")
+rows_ahead_ok = bool(wait_loop) and wait_loop.end() < first_access
+# any other construct before the first array access that looks at the input position (e.g. a helper call) is reported
+pre = body[:first_access]
+helper = re.findall(r"\b(\w+)\(cinfo, (\d+)\)", pre)
+
+# ---- jddctmgr.c start_pass(): a multiplier table is marked built only after the quant table check ---------
+dm = strip_comments(rd("jddctmgr.c"))
+body = func_body(dm, r"METHODDEF\(void\)\s*\nstart_pass\(j_decompress_ptr cinfo\)", "jddctmgr.c start_pass")
+m_skip = re.search(r"if \(!compptr->component_needed \|\| idct->cur_method\[ci\] == method\)\s*continue;", body)
+m_q = re.search(r"qtbl = compptr->quant_table;\s*if \(qtbl == NULL\)\s*continue;", body)
+marks = [m.start() for m in re.finditer(r"idct->cur_method\[ci\] = method;", body)]
+m_sw = body.find("switch (method)", m_q.end() if m_q else 0)
+if not (m_skip and m_q and marks and m_sw > 0):
+    sys.exit("gen_C07Ctl: jddctmgr.c start_pass no longer has the skip / quant_table == NULL / cur_method[ci] = method shape the model mirrors")
+mark_after_check = len(marks) == 1 and m_skip.end() <= m_q.start() and m_q.end() <= marks[0] < m_sw
+
+print("(* GENERATED by tools/gen_C07Ctl.py from src/jccoefct.c, src/jcparam.c, src/jcmarker.c, src/jcapistd.c, src/jcapimin.c, src/jdcoefct.c, src/jddctmgr.c -- do not edit *)")
 print("(* compress_data: assignments to xpos found: %s *)" % str(xas + xincr).replace("(*", "( *").replace("*)", "* )"))
 print("Definition xpos_is_mcu_col_times_width : bool := %s." % B(xpos_product))
 print("(* jpeg_add_quant_table: unconditional `qtblptr[0]->sent_table = FALSE;` statements at top level: %d; direct stores into quantval: %d *)" % (len(resets), len(stores)))
@@ -106,3 +132,8 @@ print("Definition add_quant_table_resets_sent : bool := %s." % B(add_resets))
 print("Definition emit_dqt_iff_unsent_then_marks_sent : bool := %s." % B(emit_guard and frame_loop))
 print("Definition start_compress_all_tables_unsends : bool := %s." % B(start_all))
 print("Definition suppress_tables_sets_every_table : bool := %s." % B(suppress_all))
+print("(* jdcoefct.c decompress_data: original wait loop (input_iMCU_row <= output_iMCU_row keeps reading) before the first array access: %s; helper calls seen: %s *)" % (B(rows_ahead_ok), helper))
+print("Definition decompress_data_waits_until_input_row_gt_output_row : bool := %s." % B(rows_ahead_ok))
+print("(* number of iMCU rows the input must have completed beyond output_iMCU_row when the scans coincide (0 = not established) *)")
+print("Definition decompress_data_rows_ahead : nat := %d." % (1 if rows_ahead_ok else 0))
+print("Definition idct_marks_table_built_after_quant_table_check : bool := %s." % B(mark_after_check))
